@@ -425,6 +425,50 @@ pub(crate) fn h_check_axis_dispatch_cube5() {
     vrt_cover(true, "axis_dispatch_cube5_end");
 }
 
+/// C11 object namespace: MEASUREMENT, CHARACTERISTIC, AXIS_PTS, BLOB and INSTANCE share one namespace. A reference
+/// from any object-reference site resolves whichever kind defines the name, and is reported when nothing does.
+pub(crate) fn h_check_object_namespace() {
+    // (FRAME_MEASUREMENT is not among the references that check() covers, so it is not a site here)
+    let site = vrt_choice(9);
+    let kind = vrt_choice(5);
+    let defined = vrt_choice(2) == 1;
+    let mut t = String::from("ASAP2_VERSION 1 71 /begin PROJECT p \"\" /begin MODULE m \"\"\n/begin RECORD_LAYOUT rl FNC_VALUES 1 UBYTE ROW_DIR DIRECT AXIS_PTS_X 2 UBYTE INDEX_INCR DIRECT /end RECORD_LAYOUT\n/begin TYPEDEF_MEASUREMENT tm \"\" UBYTE NO_COMPU_METHOD 0 0 0 255 /end TYPEDEF_MEASUREMENT\n");
+    if defined {
+        t.push_str(match kind {
+            0 => "/begin MEASUREMENT tgt \"\" UBYTE NO_COMPU_METHOD 0 0 0 255 /end MEASUREMENT\n",
+            1 => "/begin CHARACTERISTIC tgt \"\" VALUE 0 rl 0 NO_COMPU_METHOD 0 255 /end CHARACTERISTIC\n",
+            2 => "/begin AXIS_PTS tgt \"\" 0 NO_INPUT_QUANTITY rl 0 NO_COMPU_METHOD 2 0 255 /end AXIS_PTS\n",
+            3 => "/begin BLOB tgt \"\" 0 4 /end BLOB\n",
+            _ => "/begin INSTANCE tgt \"\" tm 0x100 /end INSTANCE\n",
+        });
+    }
+    let wrap = |inner: &str| -> String { let mut x = String::from("/begin FUNCTION f \"\" /begin "); x.push_str(inner); x.push_str(" tgt /end "); x.push_str(inner); x.push_str(" /end FUNCTION\n"); x };
+    match site {
+        0 => t.push_str(&wrap("IN_MEASUREMENT")),
+        1 => t.push_str(&wrap("OUT_MEASUREMENT")),
+        2 => t.push_str(&wrap("LOC_MEASUREMENT")),
+        3 => t.push_str(&wrap("DEF_CHARACTERISTIC")),
+        4 => t.push_str(&wrap("REF_CHARACTERISTIC")),
+        5 => t.push_str("/begin GROUP g \"\" /begin REF_CHARACTERISTIC tgt /end REF_CHARACTERISTIC /end GROUP\n"),
+        6 => t.push_str("/begin GROUP g \"\" /begin REF_MEASUREMENT tgt /end REF_MEASUREMENT /end GROUP\n"),
+        7 => t.push_str("/begin TRANSFORMER tr \"v\" \"x\" \"y\" 1 ON_CHANGE NO_INVERSE_TRANSFORMER /begin TRANSFORMER_IN_OBJECTS tgt /end TRANSFORMER_IN_OBJECTS /end TRANSFORMER\n"),
+        _ => t.push_str("/begin TRANSFORMER tr \"v\" \"x\" \"y\" 1 ON_CHANGE NO_INVERSE_TRANSFORMER /begin TRANSFORMER_OUT_OBJECTS tgt /end TRANSFORMER_OUT_OBJECTS /end TRANSFORMER\n"),
+    }
+    t.push_str("/end MODULE /end PROJECT");
+    let (file, _) = load_from_string(&t, None, true).unwrap();
+    let mut hits = 0;
+    for e in file.check().iter() {
+        if let A2lError::CrossReferenceError { target_name, .. } = e { if target_name == "tgt" { hits += 1; } }
+    }
+    if defined {
+        vrt_check(hits == 0, "C11 an object reference resolves when any kind of the object namespace defines the name");
+    } else {
+        vrt_check(hits == 1, "C11 a reference to a name that no object defines is reported exactly once");
+    }
+    vrt_observe_u64(hits as u64);
+    vrt_cover(true, "check_object_namespace_end");
+}
+
 // ------------------------------------------------------------------ C10: cleanup removes only, and all, unreferenced helpers
 
 fn xref_errors(file: &A2lFile) -> usize {
@@ -907,6 +951,68 @@ pub(crate) fn h_merge_unnamed_parts() {
         Err(_) => vrt_check(false, "C08 the merged model can be written and loaded"),
     }
     vrt_cover(true, "merge_unnamed_parts_end");
+}
+
+/// the same name `x` is used in every namespace of the module (unit, conversion table, compu method, record layout,
+/// object, typedef, function, group, frame, transformer) and every kind of reference to it is populated. Exactly one
+/// namespace conflicts between A and B, so exactly that namespace's `x` of B is renamed: references into the other
+/// namespaces must keep the plain name - merging two consistent files never produces a dangling reference.
+const SAME_NAME_T: &str = "ASAP2_VERSION 1 71 /begin PROJECT p \"\" /begin MODULE m \"\"
+/begin UNIT x \"~0\" \"\" DERIVED /end UNIT
+/begin COMPU_TAB x \"~1\" TAB_INTP 1 1 1 /end COMPU_TAB
+/begin COMPU_METHOD x \"~2\" TAB_INTP \"%6.3\" \"\" COMPU_TAB_REF x REF_UNIT x /end COMPU_METHOD
+/begin RECORD_LAYOUT x FNC_VALUES ~3 UBYTE ROW_DIR DIRECT AXIS_PTS_X 1 UBYTE INDEX_INCR DIRECT /end RECORD_LAYOUT
+/begin MEASUREMENT x \"~4\" UBYTE x 0 0 0 255 /begin FUNCTION_LIST x /end FUNCTION_LIST /end MEASUREMENT
+/begin TYPEDEF_MEASUREMENT x \"~5\" UBYTE x 0 0 0 255 /end TYPEDEF_MEASUREMENT
+/begin INSTANCE inst \"\" x 0x100 /end INSTANCE
+/begin CHARACTERISTIC ch \"\" CURVE 0 x 0 x 0 255 /begin AXIS_DESCR STD_AXIS x x 2 0 255 /end AXIS_DESCR /begin FUNCTION_LIST x /end FUNCTION_LIST /end CHARACTERISTIC
+/begin FUNCTION x \"\" /begin LOC_MEASUREMENT x /end LOC_MEASUREMENT /begin SUB_FUNCTION y /end SUB_FUNCTION /end FUNCTION
+/begin FUNCTION y \"\" /begin IN_MEASUREMENT x /end IN_MEASUREMENT /end FUNCTION
+/begin GROUP x \"\" ROOT /begin REF_MEASUREMENT x /end REF_MEASUREMENT /begin FUNCTION_LIST x /end FUNCTION_LIST /begin SUB_GROUP y /end SUB_GROUP /end GROUP
+/begin GROUP y \"\" /begin REF_CHARACTERISTIC ch /end REF_CHARACTERISTIC /end GROUP
+/begin FRAME x \"~6\" 1 2 FRAME_MEASUREMENT x /end FRAME
+/begin TRANSFORMER x \"~7\" \"a\" \"b\" 1 ON_CHANGE NO_INVERSE_TRANSFORMER /begin TRANSFORMER_IN_OBJECTS x /end TRANSFORMER_IN_OBJECTS /end TRANSFORMER
+/begin USER_RIGHTS usr /begin REF_GROUP x /end REF_GROUP /end USER_RIGHTS
+/end MODULE /end PROJECT";
+
+fn same_name_doc(conflict: u32, variant: &str) -> String {
+    // marker ~k is replaced by `variant` for k == conflict and by "1" otherwise
+    let b = SAME_NAME_T.as_bytes();
+    let mut out = String::new();
+    let mut i = 0;
+    while i < b.len() {
+        if b[i] == b'~' {
+            let k = (b[i + 1] - b'0') as u32;
+            out.push_str(if k == conflict { variant } else { "1" });
+            i += 2;
+        } else {
+            out.push(b[i] as char);
+            i += 1;
+        }
+    }
+    out
+}
+
+pub(crate) fn h_merge_same_name_across_namespaces() {
+    let conflict = vrt_choice(8);
+    let mut a = load_ok(&same_name_doc(conflict, "1"));
+    let mut b = load_ok(&same_name_doc(conflict, "2"));
+    vrt_check(xref_errors(&a) == 0 && xref_errors(&b) == 0, "C09 (harness) the same-name documents are consistent");
+    a.merge_modules(&mut b);
+    vrt_check(xref_errors(&a) == 0, "C09 merging two consistent files never produces a dangling reference (same name used in several namespaces)");
+    unique_names(&a.project.module[0]);
+    {
+        let m = &a.project.module[0];
+        // references into the function and group namespaces never change: nothing in them is renamed
+        for g in m.group.iter() {
+            if let Some(fl) = &g.function_list { for n in fl.name_list.iter() { vrt_check(m.function.contains_key(n), "C09 GROUP FUNCTION_LIST still names an existing FUNCTION"); } }
+            if let Some(sg) = &g.sub_group { for n in sg.identifier_list.iter() { vrt_check(m.group.contains_key(n), "C09 SUB_GROUP still names an existing GROUP"); } }
+        }
+        for ur in m.user_rights.iter() { for rg in ur.ref_group.iter() { for n in rg.identifier_list.iter() { vrt_check(m.group.contains_key(n), "C09 REF_GROUP still names an existing GROUP"); } } }
+        for ms in m.measurement.iter() { if let Some(fl) = &ms.function_list { for n in fl.name_list.iter() { vrt_check(m.function.contains_key(n), "C09 FUNCTION_LIST of a MEASUREMENT still names an existing FUNCTION"); } } }
+        for f in m.frame.iter() { if let Some(fm) = &f.frame_measurement { for n in fm.identifier_list.iter() { vrt_check(m.measurement.contains_key(n), "C09 FRAME_MEASUREMENT still names an existing MEASUREMENT"); } } }
+    }
+    vrt_cover(true, "merge_same_name_end");
 }
 
 /// C09 second order: an element of B that is textually identical to A's element of the same name, but refers to a
